@@ -84,6 +84,67 @@ pub(super) fn generate_method_impl(
         };
     };
 
+    // A method without outputs must accept a reply whose `parameters` member is absent, `null` or
+    // an empty object. `()` only accepts `null`, so such replies are decoded through a private
+    // type that accepts all three spellings.
+    let is_unit_reply =
+        matches!(&reply_type, Type::Tuple(tuple) if tuple.elems.is_empty()) && !method_attrs.is_oneway;
+    let (wire_reply_type, no_parameters_def): (Type, TokenStream) = if is_unit_reply {
+        (
+            syn::parse_quote!(__ZlinkNoParameters),
+            quote! {
+                #[derive(::core::fmt::Debug)]
+                struct __ZlinkNoParameters;
+
+                impl<'de> ::serde::Deserialize<'de> for __ZlinkNoParameters {
+                    fn deserialize<D>(deserializer: D) -> ::core::result::Result<Self, D::Error>
+                    where
+                        D: ::serde::Deserializer<'de>,
+                    {
+                        struct Visitor;
+
+                        impl<'de> ::serde::de::Visitor<'de> for Visitor {
+                            type Value = __ZlinkNoParameters;
+
+                            fn expecting(
+                                &self,
+                                formatter: &mut ::core::fmt::Formatter<'_>,
+                            ) -> ::core::fmt::Result {
+                                formatter.write_str("no parameters")
+                            }
+
+                            fn visit_unit<E>(self) -> ::core::result::Result<Self::Value, E> {
+                                Ok(__ZlinkNoParameters)
+                            }
+
+                            fn visit_map<A>(
+                                self,
+                                mut map: A,
+                            ) -> ::core::result::Result<Self::Value, A::Error>
+                            where
+                                A: ::serde::de::MapAccess<'de>,
+                            {
+                                while map
+                                    .next_entry::<::serde::de::IgnoredAny, ::serde::de::IgnoredAny>()?
+                                    .is_some()
+                                {}
+                                Ok(__ZlinkNoParameters)
+                            }
+                        }
+
+                        deserializer.deserialize_any(Visitor)
+                    }
+                }
+            },
+        )
+    } else {
+        (reply_type.clone(), quote!())
+    };
+    let method_call_setup = quote! {
+        #method_call_setup
+        #no_parameters_def
+    };
+
     let out_params_extract = match &reply_type {
         Type::Tuple(tuple) if tuple.elems.is_empty() => {
             // Unit type ()
@@ -104,6 +165,7 @@ pub(super) fn generate_method_impl(
         generate_streaming_method(
             method_call_setup,
             &reply_type,
+            &wire_reply_type,
             &error_type,
             out_params_extract,
             crate_path,
@@ -112,6 +174,7 @@ pub(super) fn generate_method_impl(
         generate_regular_method(
             method_call_setup,
             &reply_type,
+            &wire_reply_type,
             &error_type,
             out_params_extract,
             crate_path,
@@ -351,6 +414,7 @@ fn generate_oneway_method(
 fn generate_streaming_method(
     method_call_setup: TokenStream,
     reply_type: &Type,
+    wire_reply_type: &Type,
     error_type: &Type,
     out_params_extract: TokenStream,
     crate_path: &TokenStream,
@@ -370,7 +434,7 @@ fn generate_streaming_method(
 
         let stream = #crate_path::connection::chain::ReplyStream::new(
             self.read_mut(),
-            |conn| conn.receive_reply::<#reply_type, #error_type>(),
+            |conn| conn.receive_reply::<#wire_reply_type, #error_type>(),
             1,
         );
 
@@ -389,6 +453,7 @@ fn generate_streaming_method(
 fn generate_regular_method(
     method_call_setup: TokenStream,
     reply_type: &Type,
+    wire_reply_type: &Type,
     error_type: &Type,
     out_params_extract: TokenStream,
     crate_path: &TokenStream,
@@ -400,7 +465,7 @@ fn generate_regular_method(
         #method_call_setup
 
         let call = #crate_path::Call::new(method_call);
-        match self.call_method::<_, #reply_type, #error_type>(&call).await? {
+        match self.call_method::<_, #wire_reply_type, #error_type>(&call).await? {
             Ok(reply) => #out_params_extract,
             Err(error) => Ok(Err(error)),
         }
